@@ -71,6 +71,18 @@ class TNCtor(TNCore):
         if st != 'ok':
             return st
         self.post_entries(ref, op.get('entries', 'complex'))
+        if op.get('style') == 'ghz' and 'weights' in op and not any(qd_arg):
+            # GHZ-like state with exactly representable (dyadic) weights: exactly degenerate Schmidt values
+            d = len(qd_arg)
+            for i in range(len(ref.A)):
+                w = np.asarray(op['weights'][i % len(op['weights'])], dtype=float)
+                T = np.zeros(ref.A[i].shape)
+                for p_ in range(d):
+                    a = p_ if T.shape[1] > 1 else 0
+                    b = p_ if T.shape[2] > 1 else 0
+                    T[p_, a, b] = w[p_ % len(w)]
+                ref.A[i] = T
+            self.probe('ghz_state')
         o = self.finish_new('mps', ref, 'new:' + op.get('style', ''), op, extra_arrays=[qd_arg])
         if not o.retired and float(np.linalg.norm(o.dense)) == 0.0:
             self.probe('zero_state')
@@ -94,6 +106,19 @@ class TNCtor(TNCore):
         if st != 'ok':
             return st
         self.post_entries(ref, op.get('entries', 'complex') if fill != 'scalar' else 'asis')
+        mag = op.get('magnitude', 'normal')
+        if mag != 'normal' and not any(np.issubdtype(a.dtype, np.integer) for a in ref.A):
+            n = len(ref.A)
+            if mag == 'unbalanced' and n >= 2:
+                ref.A[0] = ref.A[0] * 2.0 ** -60
+                ref.A[-1] = ref.A[-1] * 2.0 ** 60
+            elif mag == 'tiny':
+                for j in range(n):
+                    ref.A[j] = ref.A[j] * 2.0 ** -18
+            elif mag == 'huge':
+                for j in range(n):
+                    ref.A[j] = ref.A[j] * 2.0 ** 12
+            self.probe('mpo_magnitude_' + mag)
         self.finish_new('mpo', ref, 'new', op, extra_arrays=[qd_arg])
         return 'ok'
 
@@ -129,12 +154,16 @@ class TNCtor(TNCore):
             g = np.random.Generator(np.random.PCG64(op['sub']))
             coeff = g.normal(size=L) + 1j * g.normal(size=L)
             return ptn.linear_fermionic_mpo(coeff, op.get('ftype', 'c'))
-        if m in ('mol', 'mol_explicit'):
+        if m in ('mol', 'mol_explicit', 'spinmol', 'spinmol_explicit'):
             t, v = mol_coeffs(L, op['sub'], op.get('structure', 'sym'))
-            return ptn.molecular_hamiltonian_mpo(t, v, optimize=(m == 'mol'))
-        if m in ('spinmol', 'spinmol_explicit'):
-            t, v = mol_coeffs(L, op['sub'], op.get('structure', 'sym'))
-            return ptn.spin_molecular_hamiltonian_mpo(t, v, optimize=(m == 'spinmol'))
+            fn = ptn.molecular_hamiltonian_mpo if m.startswith('mol') else ptn.spin_molecular_hamiltonian_mpo
+            opt = m in ('mol', 'spinmol')
+            # the flag as a caller may legitimately pass it: bool, numpy bool, int, or (optimised path) left at its default
+            form = (int(op['sub']) >> 7) % 4
+            if opt and form == 3:
+                return fn(t, v)
+            flag = [opt, np.bool_(opt), int(opt), opt][form]
+            return fn(t, v, optimize=flag)
         raise ValueError(m)
 
     def ham_applicable(self, op):
